@@ -709,7 +709,11 @@ func (m *Machine) build(op Op, pid, secret string) *harness.Req {
 		}
 		return q
 	case "visit":
-		return &harness.Req{Browser: b, Method: "GET", Path: op.S, RawQuery: op.S2}
+		method := "GET"
+		if op.Mut != "" {
+			method = op.Mut
+		}
+		return &harness.Req{Browser: b, Method: method, Path: op.S, RawQuery: op.S2}
 	case "set":
 		return &harness.Req{Browser: b, Method: "GET", Path: "/set", Query: url.Values{"k": {op.S}, "v": {op.S2}}}
 	case "o2start":
